@@ -62,9 +62,9 @@ M = [
  ("nrecords_first_sketch_only", "helpers.py",
   "                    local_sketch.n_added_records[1] += np.uint64(n_records)\n                except:\n                    pass",
   "                    local_sketch.n_added_records[1] += np.uint64(n_records)\n                    n_records = 0\n                except:\n                    pass", ["C08"]),
- ("linear_load_swallows_errors", "countmin.py",
-  "        with np.load(filename) as npzfile:\n            args = npzfile[\"args\"]\n            cms_dtype = npzfile[\"dtype\"].dtype\n            if cms_dtype != np.uint32:\n                raise TypeError(\"Saved sketch is not a CountMinLinear\")\n\n            cms = CountMinLinear(*args, shared_memory=shared_memory)\n            np.copyto(cms.cms, npzfile[\"cms\"])\n            np.copyto(cms.n_added_records, npzfile[\"n_added_records\"])\n\n        return cms",
-  "        with np.load(filename) as npzfile:\n            args = npzfile[\"args\"]\n            cms_dtype = npzfile[\"dtype\"].dtype\n            if cms_dtype != np.uint32:\n                raise TypeError(\"Saved sketch is not a CountMinLinear\")\n\n            cms = CountMinLinear(*args, shared_memory=shared_memory)\n            try:\n                np.copyto(cms.cms, npzfile[\"cms\"])\n                np.copyto(cms.n_added_records, npzfile[\"n_added_records\"])\n            except Exception:\n                pass\n\n        return cms",
+ ("linear_load_falls_back_to_empty", "countmin.py",
+  "        with np.load(filename) as npzfile:\n            args = npzfile[\"args\"]\n            cms_dtype = npzfile[\"dtype\"].dtype\n            if cms_dtype != np.uint32:",
+  "        try:\n            np.load(filename).close()\n        except Exception:\n            return CountMinLinear(1, 1, shared_memory)\n        with np.load(filename) as npzfile:\n            args = npzfile[\"args\"]\n            cms_dtype = npzfile[\"dtype\"].dtype\n            if cms_dtype != np.uint32:",
   ["C20"]),
  ("rows_share_seed", "countmin.py", "def _query_linear(cms, buckets, width, depth, uint_maxval, key):", None, ["C14"]),
 ]
